@@ -391,7 +391,8 @@ func main() {
 	e.Assume(
 		"acceptance is observed as 'the store did not throw and the property then holds the written value'; any Throwable counts as a rejection",
 		"method parameters declared with a type parameter are observed only through the store they perform: origami enforces no parameter types at call time for any class, generic or not",
-		"race reports are attributed to the property only when one of the two accesses is in node/class_generic.go (innermost frame or its caller)",
+		"race reports are attributed to the property only when one of the two accesses is made by a function of node/class_generic.go or by (*NewClassGenerated).resolveClass (first interpreter frame below Go runtime frames and the property-type accessors); all other reports are listed as unattributed",
+		"a Go-level crash of a concurrent run is attributed only when its site is in node/class_generic.go, node/new.go or data/type_generic.go",
 	)
 	samples := d.samples
 	if len(samples) == 0 {
